@@ -21,6 +21,8 @@ mod api;
 mod api2;
 // track traits: unwinding / scoped_panic hooks, Clone::clone_from ops
 mod traits;
+// track sraw: raw (un-anchored) pushes of a detached slice's bytes, empty `extend` items, hand-off histories
+mod sraw;
 
 #[derive(Clone, Copy, PartialEq, Debug)]
 enum Cell {
@@ -80,6 +82,10 @@ pub(crate) struct IovecExec {
     /// pointer, so no further op is executed on them (and they are leaked, not dropped) - the
     /// violation is reported with its op sequence instead of crashing the whole run.
     pub(crate) dead_memory: bool,
+    /// (track sraw) detached slices some iovec borrows from (`push_sraw`): not to be moved / mutated any more
+    pinned: Vec<usize>,
+    /// (track sraw) set while a call runs that C03 specifies NOT to panic (`panic_violation` reports it)
+    must_not_panic: Option<&'static str>,
 }
 
 fn handle(pfx: char, t: &str) -> Option<usize> {
@@ -106,6 +112,8 @@ impl IovecExec {
             base_chunks: ByteArena::num_live_chunks(),
             base_bytes: ByteArena::num_live_bytes(),
             dead_memory: false,
+            pinned: vec![],
+            must_not_panic: None,
         }
     }
 
@@ -274,6 +282,12 @@ impl IovecExec {
         let exp = sh.expected_stable();
         if removed > exp.len() {
             so.violations.push(format!("C04 v{} consumed {} bytes but only {} precede the first pending placeholder", i, removed, exp.len()));
+            // ... and C03: what the consumer was handed can no longer equal the appended bytes with the
+            // backfilled value in place (it got placeholder bytes, or bytes behind them, ahead of the fill)
+            so.violations.push(format!(
+                "C03 v{} the consumer was handed {} bytes but only {} appended bytes precede the first unfilled placeholder",
+                i, removed, exp.len()
+            ));
             sh.unknown = true;
             return;
         }
@@ -308,6 +322,12 @@ impl Exec for IovecExec {
         let mut so = StepOut::default();
         if self.dead_memory {
             return so;
+        }
+        if self.sraw_refuses(w) {
+            return StepOut::bad();
+        }
+        if let Some(r) = self.step_sraw(w) {
+            return r;
         }
         if let Some(r) = self.step_api2(w) {
             return r;
@@ -542,7 +562,14 @@ impl Exec for IovecExec {
                                 *c = Cell::Byte(*it.next().unwrap());
                             }
                         }
+                        // C03 (`no_panic_valid`): a pending placeholder of this very iovec, a source of the
+                        // right size - the call is specified not to panic (only claimed while the shadow
+                        // still follows the iovec)
+                        if holes > 0 && !self.shadows[i].unknown {
+                            self.must_not_panic = Some("backfill_or_panic panicked on a pending placeholder of this iovec with a source of the right size");
+                        }
                         self.iovs[i].as_mut().unwrap().backfill_or_panic(tok, &bytes);
+                        self.must_not_panic = None;
                         self.describe(&mut so, touched);
                         return so;
                     } else if holes > 0 || {
@@ -732,6 +759,7 @@ impl Exec for IovecExec {
         // `pop` on an iovec with no stable slice and `backfill` with a stale / foreign / wrong-size
         // token are documented panics; nothing else in this vocabulary may panic.
         match w.first().copied() {
+            Some("backfill") if self.must_not_panic.is_some() => Some(format!("C03 {}", self.must_not_panic.unwrap())),
             Some("pop") | Some("sc_pop") | Some("backfill") => None,
             Some(op) => Some(format!("C03 unexpected panic in {}", op)),
             None => None,
@@ -785,6 +813,8 @@ struct Gen<'a> {
     slice_alive: Vec<bool>,
     n_bref: usize,
     bref_state: Vec<(usize, usize, bool)>, // (owner iov, len, pending)
+    /// (track sraw) slices pushed raw: still live, but only read from now on
+    slice_pinned: Vec<usize>,
 }
 
 impl<'a> Gen<'a> {
@@ -1016,6 +1046,7 @@ impl Family for IovecFamily {
         cases.extend(api::enumerated_cases());
         cases.extend(api2::enumerated_cases());
         cases.extend(traits::enumerated_cases());
+        cases.extend(sraw::enumerated_cases(thorough, &self.handoff_cases()));
         cases.extend(vec![
             c(&["new", "register v0 0000", "backfill v0 b0 aa"]),
             c(&["new", "register v0 0000", "backfill v0 b0 aabbcc"]),
@@ -1068,6 +1099,7 @@ impl IovecFamily {
             slice_alive: vec![],
             n_bref: 0,
             bref_state: vec![],
+            slice_pinned: vec![],
         };
         g.ops.push("new".into());
         g.new_iov();
@@ -1102,6 +1134,10 @@ impl IovecFamily {
                 continue;
             }
             if g.rng.chance(4, 100) && api2::gen_op(&mut g, v) {
+                continue;
+            }
+            // raw pushes of detached slices, empty `extend` items, the arena hand-off composite (fam_iovec/sraw.rs)
+            if g.rng.chance(5, 100) && sraw::gen_op(&mut g, v) {
                 continue;
             }
             let roll = g.rng.below(100);
